@@ -520,6 +520,26 @@ func (e *Engine) loadField(st *State, p string, structT types.Type, fname string
 			}
 		}
 	}
+	if e.c != nil && e.c.Opts["nonnegfields"] != "" {
+		// assumed of the data (`opt nonnegfields F...`): integer (array) fields with these names hold no negative value
+		for _, n := range strings.Fields(e.c.Opts["nonnegfields"]) {
+			if n != fname {
+				continue
+			}
+			switch u := types.Unalias(ft).Underlying().(type) {
+			case *types.Array:
+				if isInt(u.Elem()) && u.Len() <= 8 && !e.bv {
+					for k := int64(0); k < u.Len(); k++ {
+						e.assume("true", sx("<=", "0", sx("select", tm, fmt.Sprint(k))))
+					}
+				}
+			case *types.Basic:
+				if isInt(ft) && !e.bv {
+					e.assume("true", sx("<=", "0", tm))
+				}
+			}
+		}
+	}
 	v := Value{tm, ft}
 	e.refBoundHeap(st, v)
 	return v
